@@ -19,8 +19,19 @@ ROOT = os.path.dirname(os.path.dirname(os.path.abspath(__file__)))
 
 
 def sh(cmd, cwd=None, timeout=3600):
-    r = subprocess.run(cmd, shell=True, cwd=cwd, capture_output=True, text=True, timeout=timeout)
-    return r.returncode, (r.stdout + r.stderr)
+    # own session: on a timeout the whole process group (the check's worker processes included) is killed; exit code 124 = timed out (inconclusive)
+    import signal
+    p = subprocess.Popen(cmd, shell=True, cwd=cwd, stdout=subprocess.PIPE, stderr=subprocess.STDOUT, text=True, start_new_session=True)
+    try:
+        out, _ = p.communicate(timeout=timeout)
+        return p.returncode, out
+    except subprocess.TimeoutExpired:
+        try:
+            os.killpg(p.pid, signal.SIGKILL)
+        except OSError:
+            pass
+        out, _ = p.communicate()
+        return 124, (out or '') + '\nTIMED OUT after %d s' % timeout
 
 
 def main():
@@ -70,7 +81,7 @@ def main():
         meta['detected_by'] = []
         meta['check_output'] = []
         for cp in checks:
-            crc, cout = sh('VERIF_REPO_SRC=%s/src ./check %s --tier %s --no-evidence' % (wt2, cp, tier), cwd=ROOT, timeout=7200)
+            crc, cout = sh('VERIF_REPO_SRC=%s/src ./check %s --tier %s --no-evidence' % (wt2, cp, tier), cwd=ROOT, timeout=1800)
             meta.setdefault('check_exits', {})[cp] = crc
             lines = [l for l in cout.splitlines() if l.startswith(('VIOLATION', '  obligation', 'INCONCLUSIVE', cp + ' tier'))]
             meta['check_output'] += [l[:400] for l in lines[:8]]
